@@ -42,6 +42,15 @@ func genGlobals(repo string) (string, error) {
 							switch v := vs.Values[i].(type) {
 							case *ast.CallExpr:
 								init = "call:" + callName(v)
+								// []byte("...") is a table of bytes written as a conversion
+								if at, ok := v.Fun.(*ast.ArrayType); ok && at.Len == nil && len(v.Args) == 1 {
+									if el, ok := at.Elt.(*ast.Ident); ok && (el.Name == "byte" || el.Name == "rune") {
+										if bl, ok := v.Args[0].(*ast.BasicLit); ok && bl.Kind == token.STRING {
+											init = "literal"
+											tables[n.Name] = true
+										}
+									}
+								}
 								// a constructor of the same package is classified by what it returns
 								if id, ok := v.Fun.(*ast.Ident); ok {
 									for _, fd := range p.allFuncs() {
@@ -285,7 +294,11 @@ func escapes(p *pkgSrc, name string) bool {
 					}
 				case *ast.CallExpr:
 					f, isID := par.Fun.(*ast.Ident)
-					if !isID || (f.Name != "len" && f.Name != "cap") || len(par.Args) != 1 {
+					if isID && (f.Name == "len" || f.Name == "cap") && len(par.Args) == 1 {
+						break
+					}
+					// functions of the standard library that only read the slice they are handed
+					if !readOnlyStdCalls[exprStringDeep(par.Fun)] || ast.Expr(id) == par.Fun {
 						esc = true
 					}
 				case *ast.SelectorExpr:
@@ -348,3 +361,6 @@ func methodCalledOn(p *pkgSrc, name string) bool {
 	}
 	return found
 }
+
+var readOnlyStdCalls = map[string]bool{"bytes.HasPrefix": true, "bytes.HasSuffix": true, "bytes.Equal": true, "bytes.Contains": true,
+	"bytes.Index": true, "bytes.Compare": true, "strings.Join": true, "bytes.IndexByte": true}
